@@ -247,7 +247,15 @@ class Harness:
         p = os.path.join(s.dir, "cache.log")
         if os.path.exists(p):
             os.truncate(p, 0)
-        s.start()
+        try:
+            s.start(wait=60)
+        except RuntimeError:
+            # a heavily loaded machine: one more attempt before giving up
+            s.stop(kill=True)
+            p = os.path.join(s.dir, "cache.log")
+            if os.path.exists(p):
+                os.truncate(p, 0)
+            s.start(wait=120)
         for _ in range(200):
             try:
                 socket.create_connection(("127.0.0.1", s.port), timeout=1).close()
@@ -342,20 +350,18 @@ class Harness:
                 parts = "%d-%d/%d:%s:%s" % (a, b, n, "-", "eq" if raw == B[a:b + 1] and a <= b < len(B) else "ne")
         if not r["complete"]:
             frame = "bad:incomplete-" + r["framing"]
-        # diagnostic for a complete-looking 200 whose body is not the object: does it start at a later offset a, and, from
-        # some point m on, repeat the object from m-a?  (what a skipped first store buffer looks like)
+        # diagnostic for a complete-looking 200 whose body is not the object: is it the object read from the lowest requested
+        # first-byte-pos a up to some m, followed by the object from m-a on?  (what a skipped first store buffer looks like)
         skew = "-"
-        if r["status"] == 200 and sc["method"] != "HEAD" and raw != B and len(raw) == len(B) and len(B) > 0:
-            a = next((a for a in range(1, len(B)) if raw.startswith(B[a:a + 24])), None)
-            if a is not None:
-                mlen = 0
-                while mlen < len(raw) and a + mlen < len(B) and raw[mlen] == B[a + mlen]:
-                    mlen += 1
-                for back in range(0, 300):
-                    mm = a + mlen - back
-                    if mm > a and raw == B[a:mm] + B[mm - a:]:
-                        skew = "%d,%d" % (a, mm)
-                        break
+        if r["status"] == 200 and sc["method"] != "HEAD" and raw != B and len(raw) == len(B) and sc["range"] is not None:
+            specs = origin_specs(sc["range"])
+            a = 0 if specs is None or any(f is None for f, _ in specs) else min(f for f, _ in specs)
+            if 0 < a < len(B):
+                t = len(B)
+                while t > 0 and raw[t - 1] == B[t - 1]:
+                    t -= 1                      # raw[t:] == B[t:], t minimal
+                if 0 < t <= len(B) - a and raw[:t] == B[a:a + t]:
+                    skew = "%d,%d" % (a, a + t)
         reqs = self.origin.requests(st["sid"])[st["warm"]:]
         seen = "-"
         if reqs:
